@@ -557,6 +557,17 @@ class RoiSubsetStateNd(SubsetState):
         return RoiSubsetStateNd(atts=list(self._atts), roi=self.roi,
                                 pretransform=self.pretransform)
 
+    def __gluestate__(self, context):
+        return dict(atts=[context.id(att) for att in self._atts],
+                    roi=context.id(self.roi),
+                    pretransform=context.id(self.pretransform))
+
+    @classmethod
+    def __setgluestate__(cls, rec, context):
+        return cls(atts=[context.object(att) for att in rec['atts']],
+                   roi=context.object(rec['roi']),
+                   pretransform=context.object(rec['pretransform']))
+
     @contract(data='isinstance(Data)', view='array_view')
     def to_mask(self, data, view=None):
 
@@ -881,6 +892,15 @@ class MultiRangeSubsetState(SubsetState):
 
     def copy(self):
         return MultiRangeSubsetState(self.pairs, self.att)
+
+    def __gluestate__(self, context):
+        return dict(pairs=[[context.id(lo), context.id(hi)] for lo, hi in self.pairs],
+                    att=context.id(self.att))
+
+    @classmethod
+    def __setgluestate__(cls, rec, context):
+        return cls([(context.object(lo), context.object(hi)) for lo, hi in rec['pairs']],
+                   att=context.object(rec['att']))
 
 
 class CategoricalROISubsetState2D(SubsetState):
@@ -1229,6 +1249,13 @@ class MultiOrState(SubsetState):
 
     def __str__(self):
         return "('or' combination of {0} individual states)".format(len(self.states))
+
+    def __gluestate__(self, context):
+        return dict(states=[context.id(state) for state in self.states])
+
+    @classmethod
+    def __setgluestate__(cls, rec, context):
+        return cls([context.object(state) for state in rec['states']])
 
 
 class MaskSubsetState(SubsetState):
